@@ -63,7 +63,10 @@ def _sr(c):
     c.param("substream", ROF)
     c.param("size", "int")
     c.param("sample_width", "int")
-    c.ensures("self.substream is substream and self.end_of_file == size and self.sample_width == sample_width and self.position == 0", "as-given")
+    c.ensures("self.substream is substream and self.end_of_file == imax(size, 0) and self.sample_width == sample_width and self.position == 0", "as-given")
+    # a reversed view is addressed from its end: it always has a known, non-negative length (a negative "unknown" size would make every read
+    # succeed forever - F16), so draining it terminates after end_of_file bytes
+    c.ensures("self.end_of_file >= 0", "a-reversed-view-has-a-known-length")
 
 
 @contract("construct:MdxHeaderConstruct.parse_stream", abstract=True, assumed=True,
